@@ -126,19 +126,29 @@ pub fn run_random(rec: &mut Rec, seed: u64, run: u64, nops: usize) {
                     Err(_) => json!({"res": "rejected", "ret": "0", "sf": "0", "pf": "0", "bf": "0", "spread": "0"}) };
                 dpre = f.w.digest();
                 let wrong = matches!(tp.assets[i], A::Cw20(_)) && r.gen_range(0..8) == 0;
+                // slippage limits around what the quote says: max spread none / cap / realised +- one atomic / 0 / 1 %, and
+                // (a quarter of the swaps) a belief price around 1
+                let (g, sp) = {
+                    let n = |k: &str| -> u128 { sim[k].as_str().unwrap().parse().unwrap() };
+                    (n("ret") + n("sf") + n("pf") + n("bf"), n("spread"))
+                };
+                let realised: Option<u128> = if g + sp > 0 && sp < (1 << 68) { Some(((cosmwasm_std::Uint256::from(sp) * cosmwasm_std::Uint256::from(ONE)) / cosmwasm_std::Uint256::from(g + sp)).to_string().parse().unwrap()) } else { None };
+                let ms: Option<u128> = match (r.gen_range(0..10), realised) { (0, _) => None, (1, Some(x)) => Some(x), (2, Some(x)) => Some(x + 1), (3, Some(x)) => Some(x.saturating_sub(1)), (4, _) => Some(0), (5, _) => Some(ONE / 100), _ => Some(ONE / 2) };
+                let bp: Option<u128> = if r.gen_range(0..4) == 0 { Some(match r.gen_range(0..5) { 0 => ONE, 1 => ONE - ONE / 1000, 2 => ONE + ONE / 1000, 3 => ONE / 2, _ => ONE + ONE / 100 }) } else { None };
+                let (msd, bpd) = (ms.map(|x| cosmwasm_std::Decimal::new(Uint128::new(x))), bp.map(|x| cosmwasm_std::Decimal::new(Uint128::new(x))));
                 rs = match &tp.assets[i] {
                     A::Native(dn) => f.w.exec(&user, &tp.trio.clone(), &ExecuteMsg::Swap { offer_asset: tp.assets[i].asset(offer), ask_asset: tp.assets[j].info(),
-                        belief_price: None, max_spread: Some(dec("0.5")), to: None }, &[coin(offer, dn.as_str())]),
+                        belief_price: bpd, max_spread: msd, to: None }, &[coin(offer, dn.as_str())]),
                     // one in eight cw20 offers is named in the direct message (for native offers only) with one coin of the first
                     // asset attached instead of the tokens: nothing is paid in, it must be refused
                     A::Cw20(_) if wrong => f.w.exec(&user, &tp.trio.clone(), &ExecuteMsg::Swap { offer_asset: tp.assets[i].asset(offer), ask_asset: tp.assets[j].info(),
-                        belief_price: None, max_spread: Some(dec("0.5")), to: None }, &[coin(1, "uwhale")]),
-                    A::Cw20(t) => f.w.cw20_send(&user, &t.clone(), &tp.trio.clone(), offer, &Cw20HookMsg::Swap { ask_asset: tp.assets[j].info(), belief_price: None, max_spread: Some(dec("0.5")), to: None }),
+                        belief_price: bpd, max_spread: msd, to: None }, &[coin(1, "uwhale")]),
+                    A::Cw20(t) => f.w.cw20_send(&user, &t.clone(), &tp.trio.clone(), offer, &Cw20HookMsg::Swap { ask_asset: tp.assets[j].info(), belief_price: bpd, max_spread: msd, to: None }),
                 };
                 dpost = f.w.digest();
                 name = "swap"; actor = "user1";
                 let g = |k: &str| rs.attr("swap", k).unwrap_or("0".into());
-                args = json!({"i": i + 1, "j": j + 1, "k": k + 1, "offer": s(offer), "amp": cur.to_string(), "curve": curve, "wrong_path": wrong, "sim": sim,
+                args = json!({"i": i + 1, "j": j + 1, "k": k + 1, "offer": s(offer), "amp": cur.to_string(), "curve": curve, "wrong_path": wrong, "ms": ms.map(s).unwrap_or(json!("none")), "bp": bp.map(s).unwrap_or(json!("none")), "sim": sim,
                     "out": {"ret": g("return_amount"), "sf": g("swap_fee_amount"), "pf": g("protocol_fee_amount"), "bf": g("burn_fee_amount"), "spread": g("spread_amount")}});
             }
             85..=87 => {
